@@ -61,7 +61,9 @@ def _classify(atom: ast.expr) -> tuple[str | None, bool]:
     if isinstance(atom, ast.Compare) and len(atom.ops) == 1 and isinstance(atom.ops[0], (ast.In, ast.NotIn)):
         left = atom.left
         is_pardir = (dotted(left) in ("os.path.pardir", "os.pardir", "pardir")) or (isinstance(left, ast.Constant) and left.value == "..")
-        if is_pardir and ".parts" in txt:
+        # every segment is searched: the right operand is `<path>.parts` itself, not an index or a slice of it (`parts[:1]` only looks at the first)
+        whole = atom.comparators[0]
+        if is_pardir and isinstance(whole, ast.Attribute) and whole.attr == "parts":
             return "pardir", isinstance(atom.ops[0], ast.In)
     if isinstance(atom, ast.Call):
         d = dotted(atom.func) or ""
